@@ -148,10 +148,32 @@ def amount_values(rng, big):
         vals_.append(rng.randrange(16777216, 21000000) * COIN + rng.randrange(COIN))
     for _ in range(300 if big else 40):
         vals_.append(rng.randrange(COIN))
+    for _ in range(60):
+        vals_.append(sensitive(rng))
     return vals_
 
 
+_SENS = {}
+
+
+def sensitive(rng):
+    """amounts whose 8-decimal text, read as a binary64 and multiplied by COIN, truncates to a
+    different integer (aims the cases at a conversion that goes through floats)"""
+    if 'l' not in _SENS:
+        out = [29000000, 57000000, 58000000, 115000000, 820000000, 435000000]
+        r = __import__('random').Random(19)
+        while len(out) < 60:
+            a = r.choice([r.randrange(COIN), r.randrange(MAX + 1), r.randrange(1000) * 10 ** 6])
+            if int(float('%d.%08d' % (a // COIN, a % COIN)) * COIN) != a:
+                out.append(a)
+        _SENS['l'] = out
+    return rng.choice(_SENS['l'])
+
+
 def rand_amount_spelling(rng):
+    if rng.random() < 0.5:
+        a = sensitive(rng)
+        return rng.choice(spellings_of(rng, a, 5)[:3])
     a = rng.choice([0, 1, COIN, MAX, rng.randrange(MAX + 1), rng.randrange(COIN), rng.randrange(100) * COIN])
     return rng.choice(spellings_of(rng, a, 8))
 
